@@ -5,10 +5,13 @@ package common
 
 //@ spec func wfBits(b *BitArray) bool = b != nil && b.Bits > 0 && b.Bits <= 9223372036854775807 && len(b.Elems) == (b.Bits + 63) / 64
 
+// A bit array decoded from a peer may also be the empty array (0 bits, no elements); only operands can be.
+//@ spec func wfBitsOrEmpty(b *BitArray) bool = b != nil && (wfBits(b) || (b.Bits == 0 && len(b.Elems) == 0))
+
 //@ func NewBitArray(bits int) (r *BitArray)
 //@   for C18 C02
 //@   safe
-//@   requires bits <= 281474976710656
+//@   requires bits <= 18014398509481984
 //@   ensures bits <= 0 ==> r == nil
 //@   ensures bits > 0 ==> fresh(r) && wfBits(r) && r.Bits == bits && fresh(r.Elems)
 
@@ -60,39 +63,40 @@ package common
 //@ func (bA *BitArray) Copy() (r *BitArray)
 //@   for C18
 //@   safe
-//@   requires bA != nil ==> wfBits(bA)
+//@   requires bA != nil ==> wfBitsOrEmpty(bA)
 //@   ensures bA == nil ==> r == nil
-//@   ensures bA != nil ==> fresh(r) && wfBits(r) && r.Bits == bA.Bits && fresh(r.Elems)
+//@   ensures bA != nil ==> fresh(r) && wfBitsOrEmpty(r) && (wfBits(bA) ==> wfBits(r)) && r.Bits == bA.Bits && fresh(r.Elems)
 
 //@ func (bA *BitArray) copyBits(bits int) (r *BitArray)
 //@   for C18
 //@   safe
-//@   requires bA != nil && 0 < bits && bits <= 281474976710656
+//@   requires bA != nil && 0 < bits && bits <= 18014398509481984
 //@   ensures fresh(r) && wfBits(r) && r.Bits == bits && fresh(r.Elems)
 
 //@ func (bA *BitArray) Or(o *BitArray) (r *BitArray)
 //@   for C18
 //@   safe
-//@   requires bA != nil ==> wfBits(bA) && bA.Bits <= 281474976710656
-//@   requires o != nil ==> wfBits(o) && o.Bits <= 281474976710656
+//@   requires bA != nil ==> wfBits(bA) && bA.Bits <= 18014398509481984
+//@   requires o != nil ==> wfBitsOrEmpty(o) && o.Bits <= 18014398509481984
 //@   ensures bA == nil && o == nil ==> r == nil
-//@   ensures bA != nil || o != nil ==> r != nil && wfBits(r)
+//@   ensures bA != nil ==> r != nil && wfBits(r)
+//@   ensures bA == nil && o != nil ==> r != nil && wfBitsOrEmpty(r)
 //@   loop 1:
 //@     invariant 0 <= i && c != nil && fresh(c) && wfBits(c) && fresh(c.Elems) && c.Bits == max(bA.Bits, o.Bits) && smaller <= len(c.Elems) && smaller <= len(o.Elems)
 
 //@ func (bA *BitArray) And(o *BitArray) (r *BitArray)
 //@   for C18
 //@   safe
-//@   requires bA != nil ==> wfBits(bA) && bA.Bits <= 281474976710656
-//@   requires o != nil ==> wfBits(o) && o.Bits <= 281474976710656
+//@   requires bA != nil ==> wfBits(bA) && bA.Bits <= 18014398509481984
+//@   requires o != nil ==> wfBits(o) && o.Bits <= 18014398509481984
 //@   ensures bA == nil || o == nil ==> r == nil
 //@   ensures bA != nil && o != nil ==> r != nil && wfBits(r)
 
 //@ func (bA *BitArray) and(o *BitArray) (r *BitArray)
 //@   for C18
 //@   safe
-//@   requires bA != nil && wfBits(bA) && bA.Bits <= 281474976710656
-//@   requires o != nil && wfBits(o) && o.Bits <= 281474976710656
+//@   requires bA != nil && wfBits(bA) && bA.Bits <= 18014398509481984
+//@   requires o != nil && wfBits(o) && o.Bits <= 18014398509481984
 //@   ensures r != nil && fresh(r) && wfBits(r) && r.Bits == min(bA.Bits, o.Bits)
 //@   loop 1:
 //@     invariant 0 <= i && c != nil && fresh(c) && wfBits(c) && fresh(c.Elems) && c.Bits == min(bA.Bits, o.Bits)
@@ -142,6 +146,7 @@ package common
 //@   modifies bA.Bits, bA.Elems
 //@   ensures [establishesWF] protoBitArray != nil && bA.Bits != 0 ==> wfBits(bA)
 //@   ensures [rejectedLeavesEmpty] err != nil ==> bA.Bits == 0 && len(bA.Elems) == 0
+//@   ensures [acceptedIsUsable] wfBitsOrEmpty(bA)
 //@   ensures [acceptsWellFormed] protoBitArray != nil && protoBitArray.Bits >= 0 && len(protoBitArray.Elems) == (protoBitArray.Bits + 63) / 64 ==> err == nil && bA.Bits == protoBitArray.Bits && len(bA.Elems) == len(protoBitArray.Elems)
 
 // ---------------------------------------------------------------- fixed-size byte arrays
@@ -221,9 +226,10 @@ package common
 //@ func (bA *BitArray) Sub(o *BitArray) (r *BitArray)
 //@   for C18
 //@   safe
-//@   requires bA != nil ==> wfBits(bA) && bA.Bits <= 281474976710656
-//@   requires o != nil ==> wfBits(o) && o.Bits <= 281474976710656
+//@   requires bA != nil ==> wfBits(bA) && bA.Bits <= 18014398509481984
+//@   requires o != nil ==> wfBits(o) && o.Bits <= 18014398509481984
 //@   ensures bA == nil || o == nil ==> r == nil
+//@   ensures bA != nil && o != nil ==> r != nil && fresh(r) && wfBits(r) && r.Bits == bA.Bits
 //@   loop 1:
 //@     invariant 0 <= i && c != nil && fresh(c) && wfBits(c) && fresh(c.Elems) && len(c.Elems) == len(bA.Elems) && c.Bits == bA.Bits && len(o.Elems) <= len(c.Elems)
 //@   loop 2:
